@@ -414,7 +414,7 @@ func (e *eng) Op(f []string, line string, out *hx.Out) {
 			old, hadOld, err = e.tabs[tab].CompareAndDelete(w, guard, o)
 		}
 		res := e.writeS(old, hadOld, oldRev, err)
-		if want := e.ref.delete(tab, guard, o.ID, e.wtxn != nil); want != res {
+		if want := e.ref.delete(tab, f[0] == "cad", guard, o.ID, e.wtxn != nil); want != res {
 			bad = fmt.Sprintf(" !BAD:C03:write-result(want:%s)", strings.ReplaceAll(want, " ", "_"))
 		}
 		emit("P:C03,C09,C04", "%s", res)
